@@ -299,16 +299,16 @@ Proof.
     split; auto. split; auto. intros t Ht. specialize (Lt t Ht). lia.
 Qed.
 
-Lemma rj_loop_InvO : forall sel fl ofd bad s, InvO s -> nsorted sel -> NoDup sel ->
+Lemma rj_loop_InvO : forall sel fl ofd mbad bad s, InvO s -> nsorted sel -> NoDup sel ->
   (forall j, In j sel -> j < next s) ->
   (forall o, ofd = Some o -> o < next s /\ forall j, In j sel -> o < j) ->
-  InvO (fst (fst (rj_loop sel fl ofd bad s))) /\
-  next s <= next (fst (fst (rj_loop sel fl ofd bad s))) /\
-  journal (fst (fst (rj_loop sel fl ofd bad s))) = journal s /\
-  (forall o, snd (rj_loop sel fl ofd bad s) = Some o -> o < next (fst (fst (rj_loop sel fl ofd bad s)))) /\
-  (forall m, In (FJournal, m) (files (fst (fst (rj_loop sel fl ofd bad s)))) -> In (FJournal, m) (files s)).
+  InvO (fst (fst (rj_loop sel fl ofd mbad bad s))) /\
+  next s <= next (fst (fst (rj_loop sel fl ofd mbad bad s))) /\
+  journal (fst (fst (rj_loop sel fl ofd mbad bad s))) = journal s /\
+  (forall o, snd (rj_loop sel fl ofd mbad bad s) = Some o -> o < next (fst (fst (rj_loop sel fl ofd mbad bad s)))) /\
+  (forall m, In (FJournal, m) (files (fst (fst (rj_loop sel fl ofd mbad bad s)))) -> In (FJournal, m) (files s)).
 Proof.
-  induction sel as [|j sel IH]; intros fl ofd bad s H Hs Hnd Hlt Hofd.
+  induction sel as [|j sel IH]; intros fl ofd mbad bad s H Hs Hnd Hlt Hofd.
   - cbn. split; auto. split; [lia|]. split; auto. split; auto. intros o Ho. destruct (Hofd o Ho); auto.
   - cbn [rj_loop].
     assert (Hs' : nsorted sel) by (unfold nsorted in *; inversion Hs; auto).
@@ -319,15 +319,15 @@ Proof.
                          | None => (s, true)
                          | Some o =>
                              let '(s', _) := commit (Some KFlush) [] (Some j) false COk
-                                               (negb (fmem bad (FManifest, match man s with Some m => m | None => 0 end))) s in
+                                               (negb mbad) s in
                              do_rm (FJournal, o) (negb (fmem bad (FJournal, o))) RFailed s'
                          end ->
               InvO s1 /\ next s <= next s1 /\ journal s1 = journal s /\
               (forall m, In (FJournal, m) (files s1) -> In (FJournal, m) (files s))).
     { intros s1 ok E. destruct ofd as [o|].
       - destruct (Hofd o eq_refl) as [Ho1 Ho2].
-        pose proof (commit_open j (negb (fmem bad (FManifest, match man s with Some m => m | None => 0 end))) s H) as Hc.
-        destruct (commit (Some KFlush) [] (Some j) false COk (negb (fmem bad (FManifest, match man s with Some m => m | None => 0 end))) s) as [s' x].
+        pose proof (commit_open j (negb mbad) s H) as Hc.
+        destruct (commit (Some KFlush) [] (Some j) false COk (negb mbad) s) as [s' x].
         cbn [fst] in Hc. destruct Hc as (C1&C2&[v [Ev Ej]]&C4&C5&C6&_&C8).
         assert (Hn : needed s' (FJournal, o) = false \/ (FJournal, o) = (FJournal, 0)).
         { destruct (N.eqb_spec o 0) as [->|Hz]; auto. left. apply needed_journal_old; auto.
@@ -344,14 +344,14 @@ Proof.
               | None => (s, true)
               | Some o =>
                   let '(s', _) := commit (Some KFlush) [] (Some j) false COk
-                                    (negb (fmem bad (FManifest, match man s with Some m => m | None => 0 end))) s in
+                                    (negb mbad) s in
                   do_rm (FJournal, o) (negb (fmem bad (FJournal, o))) RFailed s'
               end) as [s1 ok] eqn:Est.
     destruct (Hstage s1 ok eq_refl) as (H1&Hn1&Hj1&Hf1).
     destruct ok.
     + destruct (rj_flush_InvO (N.to_nat (hd 0 fl)) s1 H1) as (G1&G2&G3&G4&G5&G6&G7).
       set (s2 := rj_flush (N.to_nat (hd 0 fl)) s1) in *.
-      destruct (IH (tl fl) (Some j) bad s2 G1 Hs' Hnd') as (I1&I2&I3&I4&I5).
+      destruct (IH (tl fl) (Some j) mbad bad s2 G1 Hs' Hnd') as (I1&I2&I3&I4&I5).
       * intros j' Hj'. assert (j' < next s) by (apply Hlt; right; auto). lia.
       * intros o Ho. inversion Ho; subst. split; auto. assert (o < next s) by (apply Hlt; left; auto). lia.
       * split; auto. split; [lia|]. split; [congruence |]. split; auto.
@@ -395,19 +395,19 @@ Qed.
    file of the exact set is there, and every file there belongs to the exact set or is a journal numbered
    above the new one (which cannot exist when the manifest's journal number is not above its next file
    number) *)
-Theorem open_db_spec : forall v fl bad s, InvC s -> In v (views s) ->
-  Good (open_db v fl bad s) /\
-  (opened (open_db v fl bad s) = true ->
-     (forall f, In f (exact_set (open_db v fl bad s)) -> In f (files (open_db v fl bad s))) /\
-     (forall f, In f (files (open_db v fl bad s)) ->
-        In f (exact_set (open_db v fl bad s)) \/
-        exists n, f = (FJournal, n) /\ journal (open_db v fl bad s) < n /\ v_next v < v_jnum v) /\
-     (forall t c, tget (tb (open_db v fl bad s)) t = Some c -> c = CTab) /\
-     frozen (open_db v fl bad s) = None /\
-     residue (open_db v fl bad s) =
-       map (fun f => (f, RStray)) (filter (fun f => negb (is_live (open_db v fl bad s) f)) (files (open_db v fl bad s)))).
+Theorem open_db_spec : forall v fl mbad bad s, InvC s -> In v (views s) ->
+  Good (open_db v fl mbad bad s) /\
+  (opened (open_db v fl mbad bad s) = true ->
+     (forall f, In f (exact_set (open_db v fl mbad bad s)) -> In f (files (open_db v fl mbad bad s))) /\
+     (forall f, In f (files (open_db v fl mbad bad s)) ->
+        In f (exact_set (open_db v fl mbad bad s)) \/
+        exists n, f = (FJournal, n) /\ journal (open_db v fl mbad bad s) < n /\ v_next v < v_jnum v) /\
+     (forall t c, tget (tb (open_db v fl mbad bad s)) t = Some c -> c = CTab) /\
+     frozen (open_db v fl mbad bad s) = None /\
+     residue (open_db v fl mbad bad s) =
+       map (fun f => (f, RStray)) (filter (fun f => negb (is_live (open_db v fl mbad bad s) f)) (files (open_db v fl mbad bad s)))).
 Proof.
-  intros v fl bad s H Hv.
+  intros v fl mbad bad s H Hv.
   destruct (c_v s H v Hv) as [Wm Wt].
   unfold open_db.
   set (s0 := set_tb (map (fun t => (t, CTab)) (ndedup (v_tabs v)))
@@ -432,8 +432,8 @@ Proof.
     - apply bump_next_InvO; auto. lia.
     - intros j Hj. apply (nsorted_le_last _ Hsorted) in Hj. cbn [next set_next]. lia. }
   destruct H1 as [H1 Hsel1].
-  destruct (rj_loop_InvO sel fl None bad s1 H1 Hsorted Hnodup Hsel1) as (L1&L2&L3&L4&L5); [intros o Ho; discriminate|].
-  destruct (rj_loop sel fl None bad s1) as [[s2 ok] ofd]. cbn [fst snd] in *.
+  destruct (rj_loop_InvO sel fl None mbad bad s1 H1 Hsorted Hnodup Hsel1) as (L1&L2&L3&L4&L5); [intros o Ho; discriminate|].
+  destruct (rj_loop sel fl None mbad bad s1) as [[s2 ok] ofd]. cbn [fst snd] in *.
   destruct ok; cbn [negb]; [|split; [unfold Good; rewrite (o_op s2 L1); apply InvO_InvC; auto | rewrite (o_op s2 L1); discriminate]].
   set (j := next s2).
   set (s3 := set_journal j (set_files (fadd (files s2) (FJournal, j)) (set_next (j + 1) s2))).
@@ -445,8 +445,8 @@ Proof.
     intros Hm. destruct (Hh' Hm) as (P1&P2&P3&P4&P5). split; auto. split; auto. split; auto. split; auto.
     apply fadd_In. right. auto. }
   assert (Hlt3 : forall t c, tget (tb s3) t = Some c -> t < j) by (intros t c Hc; apply (o_cls s2 L1 t c Hc)).
-  pose proof (commit_open j (negb (fmem bad (FManifest, match man s3 with Some m => m | None => 0 end))) s3 H3) as Hc.
-  destruct (commit (Some KFlush) [] (Some j) false COk (negb (fmem bad (FManifest, match man s3 with Some m => m | None => 0 end))) s3) as [s4 x].
+  pose proof (commit_open j (negb mbad) s3 H3) as Hc.
+  destruct (commit (Some KFlush) [] (Some j) false COk (negb mbad) s3) as [s4 x].
   cbn [fst] in Hc. destruct Hc as (C1&C2&[v4 [Ev4 Ej4]]&C4&C5&C6&C7&C8).
   assert (Hj4 : journal s4 = j) by (rewrite C6; reflexivity).
   assert (Hn4 : j + 1 <= next s4) by (cbn in C5; lia).
@@ -574,7 +574,7 @@ Proof.
       * discriminate.
 Qed.
 
-Theorem open_db_Good : forall v fl bad s, InvC s -> In v (views s) -> Good (open_db v fl bad s).
+Theorem open_db_Good : forall v fl mbad bad s, InvC s -> In v (views s) -> Good (open_db v fl mbad bad s).
 Proof. intros. apply open_db_spec; auto. Qed.
 
 (* ---------- every step keeps the invariant; never_remove_needed ---------- *)
